@@ -51,6 +51,34 @@ def counters(R, prog):
         K.check_at(R, P + '.K2', G, res, wv, require=lambda st, ev, need=need: need(st),
                    key_fn=lambda ev, fn=fn: '%s.K2:%s:move-under-locks' % (P, fn),
                    describe=lambda ev: 'thread moved between vCPUs only with its thread lock (and the queue lock) held', min_sites=1, what='vcpu write')
+    # only stealable threads are moved (a sleeper still linked in the victim's sleep queue must be resumed by its own vCPU)
+    for fn in ('photon::ws_scan_q', 'photon::ws_scan_standbyq'):
+        G = K.build(R, prog, fn)
+        f = G.root
+        # under the victim queue lock the list cannot change: front()/next() re-evaluation names the same thread
+        pure = {'intrusive_list::front', 'intrusive_list_node::next', 'photon::thread::stealable'}
+        MUT = ('pop_front', 'pop_back', 'push_back', 'push_front', 'erase', 'pop', 'remove_from_list', 'insert_before', 'insert_tail')
+
+        def list_changed(ev, key):
+            # a mutation of the list makes front()/next() name another thread
+            if ev.kind != 'call' or (ev.callee() or '').split('::')[-1] not in MUT:
+                return False
+            r = ev.recv_path()
+            return r is not None and (r + '.front()' in key or r + '->front()' in key or r + '->next()' in key)
+        res = an.run(G, [an.LockTracker(), an.GuardTracker(lambda k: 'stealable' in k or 'try_lock' in k, pure=pure, kill=list_changed)])
+
+        def stealable(st, ev, f=f):
+            tgt = ev.path(ev.e['l']) or ''
+            th = tgt.rsplit('->', 1)[0]
+            names = {th}
+            for k in st:
+                if k.startswith('D:%s=' % th):
+                    names.add(k[len('D:%s=' % th):])
+            return any(('G:%s->stealable()=T' % n) in st for n in names)
+        K.check_at(R, P + '.K6', G, res, wv, stealable,
+                   key_fn=lambda ev, fn=fn: '%s.K6:%s:only-stealable-threads-move' % (P, fn),
+                   describe=lambda ev: 'a thread changes vCPU in the stealer only if stealable() held for it (work stealing allowed and not linked in a sleep queue)',
+                   min_sites=1, what='vcpu write')
     # ws_scan_q requires the victim queue lock at both call sites
     for caller, lock in (('photon::ws_scan_runq', ('u->runq_lock', 'bg')), ('photon::ws_scan_standbyq', ('u->standbyq.lock', None))):
         G = K.build(R, prog, caller)
